@@ -82,7 +82,7 @@ var BarrierKinds = []string{"handled", "handledmsg", "handleddomain", "handleddo
 
 func IsBarrierKind(k string) bool { return in(k, BarrierKinds) }
 
-func IsMultiKind(k string) bool { return in(k, MultiKinds) }
+func IsMultiKind(k string) bool { return in(k, MultiKinds) || k == "umulticauser" }
 
 func in(k string, l []string) bool {
 	for _, x := range l {
@@ -306,7 +306,7 @@ func (g *Cfg) MultiOf(t *rapid.T, k string) *Spec {
 	}
 	s.X = make([]*Spec, n)
 	switch k {
-	case "goerrorfmulti", "umulti", "rmulti", "umulticause":
+	case "goerrorfmulti", "umulti", "rmulti", "umulticause", "umulticauser":
 		s.S = []string{g.Str(t, "msg")}
 	case "join", "gojoin":
 		// bit i: a nil argument precedes branch i; bit n: trailing nil.
